@@ -33,6 +33,17 @@ static void scenario(const vh::Json& sc, vh::Out& out, vh::Rng& rng, const vh::A
     if (base.has("raw")) { for (size_t i = 0; i < base["raw"].size(); ++i) rawbase.push_back((uint8_t)base["raw"][i].num()); bname = "golden:" + base["name"].str(); }
     else if (base.has("cat")) { built = catalogue((int)base["cat"].num(), rng, entry); bname = "cat" + std::to_string(base["cat"].num()); }
     else { Vals v; int nt; built = build_packet(base, rng, v, nt); bname = "wire"; }
+    // "sub": the input is the serialisation of the first application layer of the composition (DNS, DHCP, BootP, DHCPv6, RTP,
+    // VXLAN - none is dissected below UDP automatically) and the entry point is that class's (buffer, size) constructor
+    PDU::PDUType sub_type = PDU::UNKNOWN;
+    if (built && base["sub"].truth()) {
+        PDU* a = 0; for (PDU* x = built; x && !a; x = x->inner_pdu()) switch (x->pdu_type()) { case PDU::DNS: case PDU::DHCP: case PDU::BOOTP: case PDU::DHCPv6: case PDU::RTP: case PDU::VXLAN: a = x; break; default: break; }
+        if (!a) { delete built; return; }
+        try { rawbase = a->serialize(); } catch (std::exception&) {}
+        sub_type = a->pdu_type(); delete built; built = 0; bname += "/sub" + std::to_string((int)sub_type);
+        if (rawbase.empty()) return;
+    }
+    auto parse = [&](const uint8_t* p, uint32_t n) -> PDU* { return sub_type != PDU::UNKNOWN ? construct(sub_type, p, n) : parse_entry(entry, p, n); };
     if (!built && rawbase.empty()) return;
     out.begin("\"base\":\"" + bname + "\",\"entry\":\"" + entry_name(entry) + "\",\"mut\":\"" + mut["k"].str() + "\"");
     vh::W w; w.O().kv("e", "rt").kv("base", bname).kv("mutk", mut["k"].str()).kv("mlayer", mut["layer"].num());
@@ -41,7 +52,7 @@ static void scenario(const vh::Json& sc, vh::Out& out, vh::Rng& rng, const vh::A
     else b0 = rawbase;
     Bytes b = b0; bool applied = mut["k"].str() == "none";
     if (!b0.empty() && mut["k"].str() == "tag") {
-        try { PDU* p0 = parse_entry(entry, &b0[0], (uint32_t)b0.size()); long off0 = 0, idx = 0;
+        try { PDU* p0 = parse(&b0[0], (uint32_t)b0.size()); long off0 = 0, idx = 0;
               for (PDU* p = p0; p; off0 += p->header_size(), p = p->inner_pdu(), ++idx) {
                   long o, wd, unk; if (idx == mut["layer"].num() && tag_field(p, o, wd, unk) && p->inner_pdu()) { for (long k = 0; k < wd; ++k) b[off0 + o + k] = (uint8_t)(unk >> (8 * (wd - 1 - k))); applied = true; } }
               delete p0; } catch (std::exception&) {}
@@ -53,7 +64,7 @@ static void scenario(const vh::Json& sc, vh::Out& out, vh::Rng& rng, const vh::A
     PDU* p = 0; PDU* q = 0; Bytes y, y2;
     if (!b.empty() && applied) {
         uint8_t* blk = new uint8_t[b.size()]; memcpy(blk, &b[0], b.size());
-        try { p = parse_entry(entry, blk, (uint32_t)b.size()); accepted = true; outcome = "packet"; }
+        try { p = parse(blk, (uint32_t)b.size()); accepted = true; outcome = "packet"; }
         catch (malformed_packet&) { outcome = "malformed"; }
         catch (std::exception& e) { outcome = std::string("foreign:") + typeid(e).name(); }
         delete[] blk;
@@ -63,7 +74,7 @@ static void scenario(const vh::Json& sc, vh::Out& out, vh::Rng& rng, const vh::A
     if (p) {
         layers_json(w, "lp", *p);
         for (PDU* x = p; x; x = x->inner_pdu()) if (!x->inner_pdu()) { RawPDU* r = dynamic_cast<RawPDU*>(x); pay_nonempty = r && r->payload_size() > 0; }
-        try { y = p->serialize(); q = parse_entry(entry, &y[0], (uint32_t)y.size()); } catch (std::exception& e) { thrown = std::string("reparse: ") + typeid(e).name() + ": " + e.what(); }
+        try { y = p->serialize(); q = parse(&y[0], (uint32_t)y.size()); } catch (std::exception& e) { thrown = std::string("reparse: ") + typeid(e).name() + ": " + e.what(); }
         w.kbytes("y", y);
         if (q) { layers_json(w, "lq", *q); try { y2 = q->serialize(); } catch (std::exception& e) { thrown = std::string("reserialize: ") + typeid(e).name(); } }
         else w.kraw("lq", "[]");
